@@ -346,6 +346,67 @@ def check_bounded_wait(ck: Checker, rid: str, s: Srv):
     ck.need(found, f'{f.key}: no wait found')
 
 
+CLOCKS = ('perf_counter', 'monotonic', 'time', 'perf_counter_ns', 'monotonic_ns')
+
+
+def _has_clock(e) -> bool:
+    return any(isinstance(c, ast.Call) and (dotted(c.func) or '').split('.')[-1] in CLOCKS for c in ast.walk(e))
+
+
+def check_remaining_time(ck: Checker, rid: str, s: Srv):
+    """A wait inside the re-check loop is bounded by the time that *remains*: its timeout is computed in the
+    same iteration from a fresh clock reading.  A constant bound (`timeout * 0.99`) would start a full-length
+    wait after every wake-up that lost the race for the freed slot: the caller waits far beyond its timeout."""
+    cfg, sc = enqueue_cfg(ck, s)
+    for wn, wc in _wait_nodes(cfg, sc, s):
+        if not wn.loops:
+            continue  # C06-1 reports a wait that is not re-checked in a loop
+        L = wn.loops[-1]
+        targ = None
+        a = header_expr(wn)
+        for c in calls_in(a):
+            r, me = method_of(c)
+            if me == 'wait' and r is not None and sc.canon(r) == s.cond:
+                targ = c.args[0] if c.args else kwarg(c, 'timeout')
+            if (dotted(c.func) or '').endswith('wait_for') and c is not wc and len(c.args) > 1:
+                targ = targ or c.args[1]
+            if (dotted(c.func) or '').endswith('wait_for') and kwarg(c, 'timeout') is not None:
+                targ = targ or kwarg(c, 'timeout')
+        if targ is None or is_none(targ):
+            ck.ob(rid, s.enqueue, wn.ast, False, 'the wait inside the re-check loop has no timeout at all')
+            continue
+
+        def fresh(e, seen=()):
+            if _has_clock(e):
+                return True
+            for nm in names_in(e):
+                if nm in seen:
+                    continue
+                rd = reaching_defs(cfg, nm, start=L, cut_back_edges_to=L).get(wn.id, frozenset())
+                for d in rd:
+                    dn = cfg.nodes[d]
+                    if L in dn.loops and dn.kind == 'stmt' and isinstance(dn.ast, ast.Assign) and fresh(dn.ast.value, seen + (nm,)):
+                        return True
+            return False
+
+        ok = fresh(targ)
+        ck.ob(rid, s.enqueue, wn.ast, ok, f'the wait is bounded by `{norm_text(targ)}`, recomputed from the clock in every pass of the re-check loop (time remaining)' if ok else f'every pass of the re-check loop waits `{norm_text(targ)}` again, which is not reduced by the time already spent: a caller that keeps losing the freed slot waits far beyond its timeout')
+
+
+def check_reject_at_once(ck: Checker, rid: str, s: Srv, param='backpressure'):
+    """With backpressure a request that finds the server full is rejected without waiting: no wait on the
+    admission condition is reachable unless the `backpressure` flag was tested and found false."""
+    from mpsa.guard import Guard
+
+    ck.need(param in s.enqueue.params(), f'{s.enqueue.key}: no `{param}` parameter')
+    cfg, sc = enqueue_cfg(ck, s)
+    g = Guard(cfg, cfg.lat)
+    for wn, wc in _wait_nodes(cfg, sc, s):
+        S = g.at(wn.id)
+        bad = [d for d in S if ('false', param) not in d]
+        ck.ob(rid, s.enqueue, wn.ast, not bad, f'the wait is reached only on paths that tested `{param}` and found it false ({len(S)} path condition(s))' if not bad else f'a caller with `{param}=True` can reach this wait (the flag is not tested on the way from the capacity guard): a request arriving at — or finding after acquiring the lock — a full server waits instead of being rejected at once')
+
+
 # ----------------------------------------------------------------------
 # gather loop
 def gather_cfg(ck: Checker, s: Srv):
